@@ -303,6 +303,17 @@ spec:
   - {number: 9000, name: bar}
   endpoints: [{address: 10.2.7.1}]
 `},
+	{name: "se-unnamed-protocol-with-vip", kind: "SE", core: true, shape: "sniffed-vip", yaml: hdrSE + `
+metadata: {name: s}
+spec:
+  hosts: [s.example.com]
+  addresses: [10.0.0.9]
+  resolution: STATIC
+  ports:
+  - {number: 80, name: foo}
+  - {number: 9000, name: bar}
+  endpoints: [{address: 10.2.13.1}]
+`},
 	{name: "se-endpoint-on-proxy", kind: "SE", core: true, yaml: hdrSE + `
 metadata: {name: k}
 spec:
